@@ -833,7 +833,10 @@ where
                 if let Some(listener) = self.inner.event_listener.as_ref() {
                     listener.on_leave(Event::Evict, self.record.key(), self.record.value());
                 }
-                if self.pipe.is_enabled() {
+                // A disk-only record that came back through `insert_piece` (`Source::Memory`) was taken from the disk
+                // cache write queue: it has been handed to the disk tier already. Offering it again would enqueue the
+                // old value with a fresh sequence, possibly after newer versions of the key.
+                if self.pipe.is_enabled() && self.source != Source::Memory {
                     self.pipe.send(Piece::new(self.record.clone()));
                 }
                 return;
